@@ -17,7 +17,7 @@ fn bounded_memory<T: Dom>(outer: VK, inner: Option<VK>, free: usize, tail: Tail,
     let name = match &inner { Some(i) => format!("{} over {}", outer.name(), i.name()), None => outer.name() };
     alloc::reset();
     let built = std::panic::catch_unwind(std::panic::AssertUnwindSafe(|| alloc::track(|| { let base = match &inner { Some(i) => build::<T>(i, echo()), None => echo() }; build::<T>(&outer, base) })));
-    let Ok(mut v) = built else { return };
+    let Ok(mut v) = built else { T::oblige(&format!("{name}: the constructor rejects this window length (nothing to run)"), Cond::Bool(true)); return };
     let p = if positive { "pos" } else { "" };
     let pos = |x: T| { if positive { T::assume(lt(T::zero(), x)); } x };
     let (a, b) = (pos(T::input(&format!("{p}a"))), pos(T::input(&format!("{p}b"))));
